@@ -1,7 +1,134 @@
-(* C13 — DBSCAN (placeholder while the proofs are being written) *)
-From Coq Require Import List Arith ZArith Bool.
-From SC Require Import C13.Model.
+(* C13 — DBSCAN labels satisfy the definition of density-based clusters.
+   Property theorems only; statements are about the executable model SC.C13.Model (a transliteration
+   of src/cluster/dbscan.rs `fit` / `predict`, parameterised by the neighbourhood function `nb` that
+   stands for the search backend + metric + eps), which the correspondence check ties to the code.
+   Vocabulary (SC.C13.Spec): `core nb minpts i` = at least minpts indices in `nb i`;
+   `core_conn nb minpts i j` = chain of core points, each listed in the previous one's neighbourhood;
+   `nb_in_range`, `nb_symmetric`, `nb_same_sets` = the hypotheses on the backend's answers. *)
+From Coq Require Import List Arith ZArith Bool Lia.
+From SC Require Import C13.Model C13.Spec C13.ProofsBase C13.ProofsMain C13.ProofsBackend C13.ProofsPredict.
 Import ListNotations.
 
-Theorem C13_placeholder : dbscan (fun _ => [0]) 1 1 = Some ([0%Z], 1%Z).
-Proof. reflexivity. Qed.
+(* Functional correctness of `fit` for every neighbourhood function with indices in range that is
+   symmetric as sets (any order, any n, any min_samples):
+   labels are -1 or 0..c-1; core points are clustered; two core points share a label exactly when
+   they are density-connected; a non-core point with a core point in its neighbourhood carries the
+   label of one such core point (the smallest such cluster id); all other points are noise (-1);
+   every id 0..c-1 is used (by a core point), i.e. no gaps and num_classes = c. *)
+Theorem C13_dbscan_correct : forall nb minpts n y c,
+  nb_in_range nb n -> nb_symmetric nb n ->
+  dbscan nb minpts n = Some (y, c) ->
+  length y = n /\ (0 <= c)%Z /\
+  (forall i, i < n -> get y i = (-1)%Z \/ (0 <= get y i < c)%Z) /\
+  (forall i, i < n -> core nb minpts i -> (0 <= get y i < c)%Z) /\
+  (forall i j, i < n -> j < n -> core nb minpts i -> core nb minpts j ->
+     (get y i = get y j <-> core_conn nb minpts i j)) /\
+  (forall i, i < n -> ~ core nb minpts i -> (exists q, In q (nb i) /\ core nb minpts q) ->
+     exists q, In q (nb i) /\ core nb minpts q /\ get y i = get y q) /\
+  (forall i, i < n -> ~ core nb minpts i -> (forall q, In q (nb i) -> ~ core nb minpts q) ->
+     get y i = (-1)%Z) /\
+  (forall l, (0 <= l < c)%Z -> exists i, i < n /\ core nb minpts i /\ get y i = l) /\
+  (forall i q, i < n -> In q (nb i) -> core nb minpts q -> (0 <= get y i <= get y q)%Z).
+Proof. intros nb minpts n y c Hr Hs. exact (dbscan_correct nb minpts n Hr Hs y c). Qed.
+
+(* Termination by an explicit measure (stack length + total neighbour-list length of the points
+   that can still be expanded): the model's `while` loop never runs out of the fuel `dbscan`
+   supplies, any larger fuel gives the same result, and the fuel is at most 2 n^2 for
+   duplicate-free lists.  Together with the parameter check: `fit` fails exactly when
+   min_samples < 1. *)
+Theorem C13_fit_terminates : forall nb minpts n,
+  nb_in_range nb n ->
+  (exists y c, dbscan nb minpts n = Some (y, c)) /\
+  (forall fuel, dbscan_fuel nb n <= fuel ->
+     outer nb minpts fuel (seq 0 n) 0%Z (repeat undefined n) = dbscan nb minpts n) /\
+  ((forall i, i < n -> NoDup (nb i)) -> dbscan_fuel nb n <= 2 * (n * n)) /\
+  (1 <= minpts -> fit nb minpts n = dbscan nb minpts n) /\
+  (minpts < 1 -> fit nb minpts n = None).
+Proof.
+  intros nb minpts n Hr. split; [exact (dbscan_terminates nb minpts n Hr)|].
+  split; [exact (dbscan_fuel_irrelevant nb minpts n Hr)|].
+  split; [exact (dbscan_fuel_quadratic nb n Hr)|].
+  unfold fit. split; intro H; destruct (Nat.ltb_spec minpts 1); auto; lia.
+Qed.
+
+(* Core-point labels, the number of clusters and the noise set do not depend on the search backend:
+   two backends that return the same neighbour *sets* (each index once, in any order). *)
+Theorem C13_core_labels_backend_independent : forall nb1 nb2 minpts n y1 c1 y2 c2,
+  nb_in_range nb1 n -> nb_symmetric nb1 n -> nb_same_sets nb1 nb2 n ->
+  dbscan nb1 minpts n = Some (y1, c1) -> dbscan nb2 minpts n = Some (y2, c2) ->
+  c1 = c2 /\
+  (forall i, i < n -> core nb1 minpts i -> get y1 i = get y2 i) /\
+  (forall i, i < n -> (get y1 i = (-1)%Z <-> get y2 i = (-1)%Z)).
+Proof.
+  intros nb1 nb2 minpts n y1 c1 y2 c2 Hr Hs (Hset & Hn1 & Hn2).
+  exact (backend_independent nb1 nb2 minpts n Hr Hs Hset Hn1 Hn2 y1 c1 y2 c2).
+Qed.
+
+(* Stronger than the property asks: border points get the smallest adjacent cluster id, so the
+   whole labelling is a function of the neighbour sets. *)
+Theorem C13_all_labels_backend_independent : forall nb1 nb2 minpts n y1 c1 y2 c2,
+  nb_in_range nb1 n -> nb_symmetric nb1 n -> nb_same_sets nb1 nb2 n ->
+  dbscan nb1 minpts n = Some (y1, c1) -> dbscan nb2 minpts n = Some (y2, c2) ->
+  y1 = y2 /\ c1 = c2.
+Proof.
+  intros nb1 nb2 minpts n y1 c1 y2 c2 Hr Hs (Hset & Hn1 & Hn2).
+  exact (backend_independent_all nb1 nb2 minpts n Hr Hs Hset Hn1 Hn2 y1 c1 y2 c2).
+Qed.
+
+(* predict (after the repair of D9): with nbq = the training indices within eps of the new row and
+   all their labels below c, the answer is -1 or a cluster w < c that has at least one vote, at least
+   as many votes as every cluster and as the unclustered neighbours, and strictly more than every
+   smaller cluster id; it is -1 exactly when there is no neighbour or the unclustered neighbours
+   strictly outnumber every cluster. *)
+Theorem C13_predict_plurality : forall y c nbq,
+  (forall idx, In idx nbq -> (get y idx < Z.of_nat c)%Z) ->
+  let r := predict_one y c nbq in
+  (r = (-1)%Z \/ exists w, r = Z.of_nat w /\ w < c /\
+       0 < votes_for y nbq w /\
+       (forall l, l < c -> votes_for y nbq l <= votes_for y nbq w) /\
+       votes_noise y nbq <= votes_for y nbq w /\
+       (forall l, l < w -> votes_for y nbq l < votes_for y nbq w)) /\
+  (r = (-1)%Z <-> nbq = [] \/ (forall l, l < c -> votes_for y nbq l < votes_noise y nbq)).
+Proof. exact predict_plurality. Qed.
+
+(* ---------- the hypotheses are satisfiable on a non-trivial instance ----------
+   1-D points 1,1,2,4,6,7,7,20 with eps = 2, min_samples = 4: core points 2 and 4 (two clusters),
+   point 3 is a border point within eps of both clusters, point 7 is noise, points 0 and 1 are
+   first marked as provisional noise and then relabelled. *)
+Definition ex_nbs : list (list nat) :=
+  [[0;1;2]; [0;1;2]; [0;1;2;3]; [2;3;4]; [3;4;5;6]; [4;5;6]; [4;5;6]; [7]].
+Definition ex_nb (i : nat) : list nat := nth i ex_nbs [].
+Definition ex_nb_rev (i : nat) : list nat := rev (ex_nb i).
+
+Example C13_example_hypotheses : nb_in_range ex_nb 8 /\ nb_symmetric ex_nb 8.
+Proof.
+  split; intros i j Hi Hin;
+    do 8 (destruct i as [|i]; [cbn in Hin; intuition (subst; cbn; auto; lia)|]); lia.
+Qed.
+
+Example C13_example_run :
+  dbscan ex_nb 4 8 = Some ([0; 0; 0; 0; 1; 1; 1; -1]%Z, 2%Z) /\
+  core ex_nb 4 2 /\ core ex_nb 4 4 /\ ~ core ex_nb 4 3 /\ ~ core_conn ex_nb 4 2 4.
+Proof.
+  split; [vm_compute; reflexivity|]. unfold core. cbn. repeat split; try lia.
+  assert (H : forall a b, core_conn ex_nb 4 a b -> a = 2 -> b = 2).
+  { intros a b Hc. induction Hc as [|a j b Ha Hj Hin _ IH]; intro E; [exact E|].
+    subst a. apply IH. unfold core in Hj. cbn in Hin. intuition (subst; cbn in Hj; lia). }
+  intro Hc. specialize (H 2 4 Hc eq_refl). discriminate.
+Qed.
+
+Example C13_example_backends :
+  nb_same_sets ex_nb ex_nb_rev 8 /\
+  dbscan ex_nb_rev 4 8 = dbscan ex_nb 4 8.
+Proof.
+  split; [|vm_compute; reflexivity].
+  split; [|split]; intros i; intros;
+    do 8 (destruct i as [|i]; [unfold ex_nb_rev; try (rewrite <- in_rev; tauto);
+                               cbn; repeat constructor; cbn; intuition lia|]); lia.
+Qed.
+
+Example C13_example_predict :
+  let y := [0; 0; 0; 0; 1; 1; 1; -1]%Z in
+  predict_one y 2 [3; 4; 5] = 1%Z /\ predict_one y 2 [3; 4] = 0%Z /\
+  predict_one y 2 [7] = (-1)%Z /\ predict_one y 2 [] = (-1)%Z /\ predict_one y 2 [7; 7; 3] = (-1)%Z.
+Proof. vm_compute. repeat split. Qed.
